@@ -99,4 +99,12 @@ def deadWrite : List (Disc (ConstBlocks (Fin 3) Int)) :=
 def parDup : List (Disc (ConstBlocks (Fin 3) Int)) :=
   [mkDisc [0, 1] [2] [(2, 0, 2), (2, 1, 3)], mkDisc [0] [2] [(2, 0, 5)]]
 
+/-- A discipline that reads and overwrites two variables with cross-dependence (x=0, a=1, b=2, o=3):
+    `D0: a = 2x, b = 3x`; `D1: (a, b) := (5a + 7b, 11a + 13b)`; `D2: o = 17a + 19b`.
+    The function computed is `o = (17·31 + 19·61) x = 1686 x`. -/
+def inplace2 : List (Disc (ConstBlocks (Fin 4) Int)) :=
+  [mkDisc [0] [1, 2] [(1, 0, 2), (2, 0, 3)],
+   mkDisc [1, 2] [1, 2] [(1, 1, 5), (1, 2, 7), (2, 1, 11), (2, 2, 13)],
+   mkDisc [1, 2] [3] [(3, 1, 17), (3, 2, 19)]]
+
 end GV.C09
